@@ -457,7 +457,7 @@ def rules(ck, P):
     if tr:
         okd = False
         for n in ir.walk_nodes(tr["body"]):
-            if n.get("k") == "if" and ir.contains(n["c"], lambda y: y.get("k") == "lit" and y.get("v") == ".") and ir.contains(n["then"], lambda y: y.get("k") == "mcall" and y.get("name") == "remove"):
+            if n.get("k") == "if" and ir.deep_has_lit(n["c"], ".") and ir.contains(n["then"], lambda y: y.get("k") == "mcall" and y.get("name") in ("remove", "drain", "pop_front")):
                 okd = True
         ck.check(okd, "R-NAME", "tar|dot-prefix", "a leading './' component (written by this writer, allowed by tar) is dropped before the 3-component test", "'./' prefixed members are not recognised", ir.loc(tr))
 
